@@ -7,7 +7,7 @@ from copy import deepcopy
 from typing import TYPE_CHECKING
 
 # Third Party Imports
-from numpy import argwhere, array, ceil, concatenate, delete, dot, hstack, linspace, ones, outer
+from numpy import argmax, argwhere, array, ceil, concatenate, delete, dot, hstack, linspace, ones, outer
 from numpy import round as np_round
 from numpy import sum as np_sum
 from numpy import union1d, vstack, zeros
@@ -646,8 +646,12 @@ class AdaptiveFilter(KalmanFilter):
             prune_index (``ndarray``): indices of models to be pruned
             observations (``list``): :class:`.Observation` objects associated with the filter step
         """
+        # Don't prune everything: if every model is marked, the most probable one stays
+        if len(prune_index) >= len(self.models):
+            keep = int(argmax(self.model_weights))
+            prune_index = [index for index in prune_index if index != keep]
+
         for index in reversed(prune_index):
-            # Don't prune everything
             if len(self.models) != 1:
                 self.models.pop(index)
                 self.num_models -= 1
